@@ -27,8 +27,12 @@ def run(ctx):
     b2 = ctx.tlc(sdir, "CovertPolicy.tla", "MC_CovertPolicy_fullmatch.cfg", timeout=300, count=False)
     if b2["inv"] != "CheckedIsPermitted":
         raise vlib.InfraError("the instance whose patterns must match the whole host should violate CheckedIsPermitted, got %s" % b2["inv"])
+    b3 = ctx.tlc(sdir, "CovertPolicy.tla", "MC_CovertPolicy_pubskip.cfg", timeout=300, count=False)
+    if b3["inv"] != "CheckedIsPermitted":
+        raise vlib.InfraError("the instance that skips interface subnets whose address is already covered should violate CheckedIsPermitted, got %s" % b3["inv"])
     ctx.stage("A", nonvacuity="instance that re-resolves at dial time violates %s; instance whose domain patterns must match the whole host "
-              "(instead of being searched in it) violates CheckedIsPermitted" % b["inv"])
+              "(instead of being searched in it) violates CheckedIsPermitted; instance whose covert_blocklist_public_addrs skips an interface "
+              "subnet when a configured entry covers the interface address violates CheckedIsPermitted" % b["inv"])
 
     g = ctx.tlc(sdir, "Gen_CovertPolicy.tla", "Gen_CovertPolicy.cfg", timeout=900, workers=8, count=False)
     if g["inv"]:
